@@ -449,7 +449,63 @@ def run_c07(tier):
     return chk.finish()
 
 
+def small_stack_decode(chk):
+    """decode of canonical bytes on a thread with a 512 KiB stack: an optional<T> and a greedy element of 300 kB must not need
+    sizeof(T) of stack (defect D132)"""
+    import os
+    import shutil
+    import subprocess
+    import tempfile
+    from harness.impl import py_impl
+    d = tempfile.mkdtemp(prefix='prophy-verif-')
+    try:
+        with open(os.path.join(d, 'st.prophy'), 'w') as f:
+            f.write('struct Blob { u8 data[300000]; };\nstruct OptMsg { Blob* b; u32 x; };\nstruct Dyn { u8 n; u8 pad<@n>; u8 data[300000]; };\nstruct Tail { u32 k; Dyn g<...>; };\n')
+        py_impl.run_prophyc(['--cpp_full_out', d, os.path.join(d, 'st.prophy')])
+        with open(os.path.join(d, 'main.cpp'), 'w') as f:
+            f.write(r'''
+#include "st.ppf.hpp"
+#include <pthread.h>
+#include <stdio.h>
+using namespace prophy::generated;
+static void* run(void*)
+{
+    std::vector<uint8_t> a(4 + 300000 + 4, 0); a[0] = 1;                 /* OptMsg with the optional set */
+    OptMsg* m = new OptMsg();
+    printf("OptMsg %d\n", int(m->decode<prophy::little>(a.data(), a.size())));
+    std::vector<uint8_t> b(4 + 300001 + 3, 0);                          /* Tail with one element (pad empty), ends aligned */
+    Tail* t = new Tail();
+    bool ok = t->decode<prophy::little>(b.data(), b.size());
+    printf("Tail %d %d\n", int(ok), int(t->g.size()));
+    return 0;
+}
+int main()
+{
+    pthread_attr_t attr; pthread_attr_init(&attr); pthread_attr_setstacksize(&attr, 512 * 1024);
+    pthread_t th; pthread_create(&th, &attr, run, 0); pthread_join(th, 0);
+    return 0;
+}
+''')
+        for opt in ('-O0', '-O2'):
+            exe = os.path.join(d, 'st' + opt)
+            p = subprocess.run(['g++', '-std=c++11', opt, '-pthread', '-I' + os.path.join(py_impl.REPO, 'prophy_cpp', 'include'), '-I' + d,
+                                os.path.join(d, 'main.cpp'), os.path.join(d, 'st.ppf.cpp'), '-o', exe], stdout=subprocess.PIPE, stderr=subprocess.STDOUT, timeout=900)
+            if p.returncode != 0:
+                raise core.Infra('small-stack program does not build: ' + p.stdout.decode(errors='replace')[-600:])
+            r = subprocess.run([exe], stdout=subprocess.PIPE, stderr=subprocess.STDOUT, timeout=120)
+            out = r.stdout.decode(errors='replace').split('\n')
+            casej = {'schema': 'struct Blob { u8 data[300000]; }; struct OptMsg { Blob* b; u32 x; }; struct Dyn {...300000}; struct Tail { u32 k; Dyn g<...>; };',
+                     'build': 'g++ %s, decode on a thread with a 512 KiB stack' % opt, 'directed': 'small-stack'}
+            chk.count(('small-stack', opt), True)
+            chk.bump('directed:small-stack')
+            if r.returncode != 0 or out[:2] != ['OptMsg 1', 'Tail 1 1']:
+                chk.property_violation(casej, {'what': 'decode of canonical bytes did not return true (exit code %d)' % r.returncode, 'output': out[:3]})
+    finally:
+        shutil.rmtree(d, ignore_errors=True)
+
+
 def directed_c07(chk, corpus):
+    small_stack_decode(chk)
     by_name = {c.name: c for c in corpus.types if c.directed}
     le = lambda n, k=4: n.to_bytes(k, 'little')   # noqa: E731
     inputs = [
